@@ -335,6 +335,18 @@ class LoopAnalyser:
             for c, v in self.ev(n.args[0], cps, env):
                 out.append((c, Lin(1, 0) if isinstance(v, Char) else Other("ord of non-loop value")))
             return out
+        if isinstance(n, ast.Call) and isinstance(n.func, ast.Name) and n.func.id == "chr" and len(n.args) == 1 and not n.keywords \
+                and "chr" not in env:
+            # chr(ord(c)) is the iterated character itself; chr of anything else stays an opaque character-derived value
+            out = []
+            for c, v in self.ev(n.args[0], cps, env):
+                if isinstance(v, Lin) and v.a == 1 and v.b == 0:
+                    out.append((c, Char()))
+                elif isinstance(v, int) and not isinstance(v, bool) and 0 <= v <= MAXCP:
+                    out.append((c, chr(v)))
+                else:
+                    out.append((c, Other(unparse(n), True)))
+            return out
         if isinstance(n, ast.Call) and isinstance(n.func, ast.Name) and n.func.id in ("int",) and len(n.args) == 1:
             return self.ev(n.args[0], cps, env)
         if isinstance(n, ast.IfExp):
